@@ -97,6 +97,20 @@ func runC06(c *Ctx) {
 			c.Floor(fmt.Sprintf("C06.once/update-paths(found=%v)", found), n, 2)
 		}
 	}
+	// ---- once: the recursion hands the set on
+	{
+		n := 0
+		for _, ci := range callsIn(upd) {
+			if staticCallee(ci.Common()) != upd {
+				continue
+			}
+			n++
+			args := ci.Common().Args
+			ok := len(args) == 4 && args[3] == updatedParam
+			c.Check(ok, "C06.once", fnName(upd), "recursive update hands on the per-notification set", P.Pos(ci.Pos()), "set argument: "+Expr(args[len(args)-1]))
+		}
+		c.Floor("C06.once/recursive-calls", n, 2)
+	}
 	// ---- once: UpdateNotification always hands a set
 	{
 		c.Analysed(fnName(un))
@@ -209,55 +223,7 @@ func runC06(c *Ctx) {
 	}
 	aliasRule(c, "C06.alias", []string{"subscribe", "match"})
 	// ---- prune
-	{
-		c.Analysed(fnName(remQ))
-		lenCls := func(e *PPA, st *State, rv RV) string {
-			rv = e.Resolve(st, rv)
-			if call, ok := rv.V.(*ssa.Call); ok {
-				if b, ok := call.Call.Value.(*ssa.Builtin); ok && b.Name() == "len" {
-					a := e.Resolve(st, RV{rv.F, call.Call.Args[0]})
-					if loadOfField(a.V, fClients) {
-						return "LC"
-					}
-					if loadOfField(a.V, fChildren) {
-						return "LCH"
-					}
-				}
-				if staticCallee(&call.Call) == remQ {
-					return "REC"
-				}
-			}
-			return ""
-		}
-		for _, sc := range []struct{ lc, lch int64 }{{0, 0}, {1, 0}, {0, 1}, {1, 1}} {
-			for _, rec := range []bool{false, true} {
-				at := &Atoms{Class: lenCls, Int: map[string]int64{"LC": sc.lc, "LCH": sc.lch}, Bool: map[string]bool{"REC": rec}}
-				e := &PPA{Cond: at.Cond, Inline: func(fr *Frame, call ssa.CallInstruction, callee *ssa.Function) bool { return callee.Parent() == remQ },
-					Watch: func(ev *Ev) bool { return ev.Label == "builtin:delete" || ev.Label == "call:"+fnName(remQ) }}
-				e.Run(remQ)
-				c.Paths += len(e.Paths)
-				c.Scen++
-				want := 0
-				if sc.lc == 0 && sc.lch == 0 {
-					want = 1
-				}
-				for i := range e.Paths {
-					p := &e.Paths[i]
-					if len(p.RetB) != 1 {
-						continue
-					}
-					c.Check(p.RetB[0] == want, "C06.prune", fnName(remQ), fmt.Sprintf("empty iff no clients and no children: len(clients)=%d len(children)=%d", sc.lc, sc.lch), P.Pos(remQ.Pos()),
-						fmt.Sprintf("reports empty=%d (want %d); path: %s", p.RetB[0], want, p.String()))
-					// prune only after an empty child
-					ri := p.Index(0, lbl("call:"+fnName(remQ)))
-					if ri >= 0 {
-						pruned := p.Index(ri, func(ev *Ev) bool { return ev.Label == "builtin:delete" && ev.Field == fChildren }) >= 0
-						c.Check(pruned == rec, "C06.prune", fnName(remQ), fmt.Sprintf("child pruned iff it reported empty (child empty=%v)", rec), P.Pos(remQ.Pos()), fmt.Sprintf("pruned=%v; path: %s", pruned, p.String()))
-					}
-				}
-			}
-		}
-	}
+	removeQueryPrune(c, "C06.prune")
 	// ---- paths agree
 	{
 		addSub := P.Func("subscribe", "addSubscription")
@@ -475,4 +441,67 @@ func indexSources(v ssa.Value, seen map[ssa.Value]bool) []string {
 		return nil // e.g. UpdateNotification's prefix: built by its caller with ToStrings (checked there)
 	}
 	return []string{Expr(v)}
+}
+
+// removeQueryPrune: removeQuery reports a node empty iff it has neither clients nor
+// children and prunes a child only when the child reported itself empty (shared by C06 and C08:
+// pruning a node that still holds another subscriber's registration silences that subscriber).
+func removeQueryPrune(c *Ctx, rule string) {
+	P := c.P
+	remQ := P.Method("match", "branch", "removeQuery")
+	fClients := P.Field("match", "branch", "clients")
+	fChildren := P.Field("match", "branch", "children")
+	if remQ == nil || fClients == nil || fChildren == nil {
+		c.Unresolved(rule, "match.(*branch).removeQuery / clients / children")
+		return
+	}
+	{
+		c.Analysed(fnName(remQ))
+		lenCls := func(e *PPA, st *State, rv RV) string {
+			rv = e.Resolve(st, rv)
+			if call, ok := rv.V.(*ssa.Call); ok {
+				if b, ok := call.Call.Value.(*ssa.Builtin); ok && b.Name() == "len" {
+					a := e.Resolve(st, RV{rv.F, call.Call.Args[0]})
+					if loadOfField(a.V, fClients) {
+						return "LC"
+					}
+					if loadOfField(a.V, fChildren) {
+						return "LCH"
+					}
+				}
+				if staticCallee(&call.Call) == remQ {
+					return "REC"
+				}
+			}
+			return ""
+		}
+		for _, sc := range []struct{ lc, lch int64 }{{0, 0}, {1, 0}, {0, 1}, {1, 1}} {
+			for _, rec := range []bool{false, true} {
+				at := &Atoms{Class: lenCls, Int: map[string]int64{"LC": sc.lc, "LCH": sc.lch}, Bool: map[string]bool{"REC": rec}}
+				e := &PPA{Cond: at.Cond, Inline: func(fr *Frame, call ssa.CallInstruction, callee *ssa.Function) bool { return callee.Parent() == remQ },
+					Watch: func(ev *Ev) bool { return ev.Label == "builtin:delete" || ev.Label == "call:"+fnName(remQ) }}
+				e.Run(remQ)
+				c.Paths += len(e.Paths)
+				c.Scen++
+				want := 0
+				if sc.lc == 0 && sc.lch == 0 {
+					want = 1
+				}
+				for i := range e.Paths {
+					p := &e.Paths[i]
+					if len(p.RetB) != 1 {
+						continue
+					}
+					c.Check(p.RetB[0] == want, rule, fnName(remQ), fmt.Sprintf("empty iff no clients and no children: len(clients)=%d len(children)=%d", sc.lc, sc.lch), P.Pos(remQ.Pos()),
+						fmt.Sprintf("reports empty=%d (want %d); path: %s", p.RetB[0], want, p.String()))
+					// prune only after an empty child
+					ri := p.Index(0, lbl("call:"+fnName(remQ)))
+					if ri >= 0 {
+						pruned := p.Index(ri, func(ev *Ev) bool { return ev.Label == "builtin:delete" && ev.Field == fChildren }) >= 0
+						c.Check(pruned == rec, rule, fnName(remQ), fmt.Sprintf("child pruned iff it reported empty (child empty=%v)", rec), P.Pos(remQ.Pos()), fmt.Sprintf("pruned=%v; path: %s", pruned, p.String()))
+					}
+				}
+			}
+		}
+	}
 }
